@@ -463,6 +463,15 @@ func c11DistCheck(c c11DistCase) (v vcase.Verdict) {
 			v.Failf("UDist{%d,%d,%v}: running sum of PMF %v != CDF(%v) = %v", n1, n2, c.T, run, U, cdf)
 			return
 		}
+		// between two points of the support the distribution function is flat (what the mass
+		// function returns for an argument outside the support is not specified)
+		for _, frac := range []float64{0.3, 0.8} {
+			x := U + frac*float64(step)/2
+			if got := d.CDF(x); math.Abs(got-cdf) > 1e-9 {
+				v.Failf("UDist{%d,%d,%v}.CDF(%v) = %v, but CDF(%v) = %v and no mass lies between", n1, n2, c.T, x, got, U, cdf)
+				return
+			}
+		}
 		v.Sub++
 	}
 	if math.Abs(sum-1) > 1e-9 {
